@@ -369,6 +369,36 @@ fn replay_inner(path: &str) -> i32 {
         return 2;
     }
     let prop = v["property"].as_str().unwrap_or("").to_string();
+    if let Some(h) = v.get("by_worker_history").filter(|h| h.is_object()) {
+        // re-create a worker's history: run the cases of its shard, in order, in THIS fresh process
+        let tier = h["tier"].as_str().unwrap_or("quick").to_string();
+        let seed = h["seed"].as_u64().unwrap_or(1);
+        let nshards = h["nshards"].as_u64().unwrap_or(16).max(1);
+        let first = h["first"].as_u64().unwrap_or(0);
+        let last = h["last"].as_u64().unwrap_or(0);
+        let want = v["signature"].as_str().unwrap_or("").to_string();
+        let mut idx = first;
+        let mut hit = None;
+        while idx <= last {
+            let r = run_case_dispatch(&prop, &tier, seed, idx);
+            if idx == last {
+                hit = r.violations.into_iter().find(|x| x.signature == want);
+            }
+            idx += nshards;
+        }
+        return match hit {
+            Some(x) => {
+                println!("VIOLATION property={prop} replay={path}");
+                println!("  class={} signature={}", x.class, x.signature);
+                println!("  {} [in a process that first ran cases {first}..{last} step {nshards}]", x.what);
+                1
+            }
+            None => {
+                println!("replay: no violation reproduced");
+                0
+            }
+        };
+    }
     match prop.as_str() {
         "C06" => match c06::replay(&v) {
             Ok(fs) if fs.is_empty() => {
